@@ -466,11 +466,24 @@ def nd_getattr(I, st, ref, name):
     elif name == "size":
         yield st, size(e.shape)
     elif name == "T":
+        if len(e.shape) > 2:
+            raise Unsupported("ndarray.T of an array with more than 2 axes")
         if len(e.shape) != 2:
             yield st, ref
         else:
             r, c = e.shape
             yield st, st.alloc(NdE((c, r), [e.data[i * c + j] for j in range(c) for i in range(r)]))
+    elif name == "transpose":
+        # a.transpose() without arguments == a.T (axes reversed); only for <= 2 axes, as .T above
+        def _tr(I, st, *axes):
+            ee = st.get(ref)
+            if axes or len(ee.shape) > 2:
+                raise Unsupported("ndarray.transpose with axes / more than 2 axes")
+            if len(ee.shape) != 2:
+                return ref
+            r, c = ee.shape
+            return st.alloc(NdE((c, r), [ee.data[i * c + j] for j in range(c) for i in range(r)]))
+        yield st, simple(_tr)
     elif name == "dot":
         yield st, simple(lambda I, st, b: dot(I, st, ref, b))
     elif name == "any":
